@@ -142,6 +142,35 @@ pub struct Request {
     pub start_at: u64,
     pub drop_after_chunks: Option<usize>,
     pub page: Vec<Node>,
+    /// provider props: 0 defaults, 1 enable_cookie=false, 2 cookie_name="site_locale", 3 set_dir_attr_on_html=false,
+    /// 4 set_lang_attr_on_html=false, 5 enable_cookie=true + set_dir_attr_on_html=false
+    pub provider: u8,
+    /// the whole provider sits under a `<Suspense>` boundary (its view is walked twice)
+    pub under_suspense: bool,
+    /// a run-once access inside a `Suspend` future: (key index into EAGER_KEYS, gate)
+    pub eager: Option<(usize, usize)>,
+}
+
+/// (namespace, label, expected text template) of the run-once accesses
+pub const EAGER_KEYS: &[(&str, &str, &str)] = &[("common", "common.bye", "bye[{L}] E"), ("common", "common.app.version", "app.version[{L}] 3")];
+
+impl Request {
+    fn enable_cookie(&self) -> bool {
+        self.provider != 1
+    }
+    fn cookie_name(&self) -> &'static str {
+        if self.provider == 2 {
+            "site_locale"
+        } else {
+            "i18n_pref_locale"
+        }
+    }
+    fn sets_lang(&self) -> bool {
+        self.provider != 4
+    }
+    fn sets_dir(&self) -> bool {
+        self.provider != 3 && self.provider != 5
+    }
 }
 
 #[derive(Clone, Debug)]
@@ -157,6 +186,7 @@ impl Plan {
         json!({
             "requests": self.requests.iter().map(|r| json!({
                 "cookie": r.cookie, "accept": r.accept, "in_order": r.in_order, "start_at": r.start_at, "drop_after_chunks": r.drop_after_chunks,
+                "provider": r.provider, "under_suspense": r.under_suspense, "eager": r.eager.map(|(k, g)| json!([k, g])),
                 "page": r.page.iter().map(|n| n.to_json()).collect::<Vec<_>>(),
             })).collect::<Vec<_>>(),
             "gates": self.gates, "policy": self.policy.name(), "schedule": schedule,
@@ -173,6 +203,9 @@ impl Plan {
                 start_at: r["start_at"].as_u64().unwrap_or(0),
                 drop_after_chunks: r["drop_after_chunks"].as_u64().map(|n| n as usize),
                 page: r["page"].as_array().map(|a| a.iter().filter_map(Node::from_json).collect()).unwrap_or_default(),
+                provider: r["provider"].as_u64().unwrap_or(0) as u8,
+                under_suspense: r["under_suspense"].as_bool().unwrap_or(false),
+                eager: r["eager"].as_array().map(|a| (a[0].as_u64().unwrap_or(0) as usize, a[1].as_u64().unwrap_or(0) as usize)),
             })
             .collect();
         let gates = v["gates"].as_array().map(|a| a.iter().map(|g| g.as_u64()).collect()).unwrap_or_default();
@@ -188,9 +221,11 @@ pub fn generate(rng: &mut Rng) -> Plan {
     let mut requests = vec![];
     for _ in 0..n_req {
         // concurrent requests carry different cookies so that leakage between them is visible
+        let provider = if rng.chance(1, 2) { 0 } else { rng.below(6) as u8 };
+        let cname = if provider == 2 && rng.chance(3, 4) { "site_locale" } else { "i18n_pref_locale" };
         let cookie = match rng.below(4) {
             0 => String::new(),
-            _ => format!("i18n_pref_locale={}", rng.pick(&["en", "fr", "fr-CA", "de", "pt-BR", "xx"])),
+            _ => format!("{cname}={}", rng.pick(&["en", "fr", "fr-CA", "de", "pt-BR", "xx"])),
         };
         let accept = rng.pick(&["", "fr", "de,en;q=0.5", "pt-BR", "fr-CA,fr;q=0.9", "es"]).to_string();
         let n_nodes = 1 + rng.below(7);
@@ -211,6 +246,9 @@ pub fn generate(rng: &mut Rng) -> Plan {
             start_at: if rng.chance(1, 2) { 0 } else { rng.below(20) as u64 },
             drop_after_chunks: if rng.chance(1, 12) { Some(rng.below(3)) } else { None },
             page,
+            provider,
+            under_suspense: rng.chance(1, 6),
+            eager: if n_gates > 0 && rng.chance(1, 4) { Some((rng.below(EAGER_KEYS.len()), rng.below(n_gates))) } else { None },
         });
     }
     let policy = match rng.below(6) {
@@ -245,7 +283,8 @@ struct ResponseState {
     set_cookies: Vec<(String, String)>,
 }
 
-fn page_view(page: Vec<Node>, gates: Vec<Gate>, cookie: String, accept: String, set_cookies: Arc<Mutex<ResponseState>>) -> impl IntoView {
+fn page_view(r: Request, gates: Vec<Gate>, set_cookies: Arc<Mutex<ResponseState>>) -> impl IntoView {
+    let Request { page, cookie, accept, provider, under_suspense, eager, .. } = r;
     let copts = {
         let sc = set_cookies.clone();
         CookieOptions::<Locale>::default().ssr_cookies_header_getter(move || Some(cookie.clone())).ssr_set_cookie(move |c| {
@@ -258,60 +297,89 @@ fn page_view(page: Vec<Node>, gates: Vec<Gate>, cookie: String, accept: String, 
         let a = accept2.clone();
         UseLocalesOptions::default().ssr_lang_header_getter(move || Some(a.clone()))
     };
-    view! {
-        <I18nContextProvider cookie_options=copts ssr_lang_header_getter=lopts>
-            {move || {
-                let i18n = use_i18n();
-                let mut out: Vec<AnyView> = vec![];
-                for (n, node) in page.iter().enumerate() {
-                    match node {
-                        Node::Text { key } => out.push(text_node(i18n, *key, n)),
-                        Node::Set { l } => {
-                            // what the router's view wrapper does while rendering a localized route
-                            i18n.set_locale(loc(*l));
+    let gates2 = gates.clone();
+    let children = move || {
+        let mut out: Vec<AnyView> = vec![];
+        for (n, node) in page.iter().enumerate() {
+            // every node looks its context up when it is constructed, as a component would
+            let i18n = use_i18n();
+            match node {
+                Node::Text { key } => out.push(text_node(i18n, *key, n)),
+                Node::Set { l } => {
+                    // what the router's view wrapper does while rendering a localized route
+                    i18n.set_locale(loc(*l));
+                }
+                Node::Sub { init, keys } => {
+                    let keys = keys.clone();
+                    let base = (n + 1) * 1000;
+                    let children = move || {
+                        let sub = use_i18n();
+                        keys.iter().enumerate().map(|(j, k)| text_node(sub, *k, base + j + 1)).collect::<Vec<_>>()
+                    };
+                    match init {
+                        Some(l) => {
+                            let l = loc(*l);
+                            out.push(view! { <I18nSubContextProvider initial_locale=Signal::derive(move || l) ssr_lang_header_getter=sub_lopts()>{children()}</I18nSubContextProvider> }.into_any())
                         }
-                        Node::Sub { init, keys } => {
-                            let keys = keys.clone();
-                            let base = (n + 1) * 1000;
-                            let children = move || {
-                                let sub = use_i18n();
-                                keys.iter().enumerate().map(|(j, k)| text_node(sub, *k, base + j + 1)).collect::<Vec<_>>()
-                            };
-                            match init {
-                                Some(l) => {
-                                    let l = loc(*l);
-                                    out.push(view! { <I18nSubContextProvider initial_locale=Signal::derive(move || l) ssr_lang_header_getter=sub_lopts()>{children()}</I18nSubContextProvider> }.into_any())
-                                }
-                                None => out.push(view! { <I18nSubContextProvider ssr_lang_header_getter=sub_lopts()>{children()}</I18nSubContextProvider> }.into_any()),
-                            }
-                        }
-                        Node::Suspense { gate, key } => {
-                            let g = gates.get(*gate).cloned().unwrap_or_default();
-                            let key = *key;
-                            out.push(
-                                view! {
-                                    <Suspense fallback=move || view! { <span class="fallback">"..."</span> }>
-                                        {Suspend::new({
-                                            let g = g.clone();
-                                            async move {
-                                                g.wait().await;
-                                                text_node(i18n, key, n)
-                                            }
-                                        })}
-                                    </Suspense>
-                                }
-                                .into_any(),
-                            );
-                        }
+                        None => out.push(view! { <I18nSubContextProvider ssr_lang_header_getter=sub_lopts()>{children()}</I18nSubContextProvider> }.into_any()),
                     }
                 }
-                out
-            }}
-        </I18nContextProvider>
+                Node::Suspense { gate, key } => {
+                    let g = gates.get(*gate).cloned().unwrap_or_default();
+                    let key = *key;
+                    out.push(
+                        view! {
+                            <Suspense fallback=move || view! { <span class="fallback">"..."</span> }>
+                                {Suspend::new({
+                                    let g = g.clone();
+                                    async move {
+                                        g.wait().await;
+                                        text_node(i18n, key, n)
+                                    }
+                                })}
+                            </Suspense>
+                        }
+                        .into_any(),
+                    );
+                }
+            }
+        }
+        if let Some((k, g)) = eager {
+            // a translation read exactly once, inside a future, before the future waits for its data
+            let gate = gates2.get(g).cloned().unwrap_or_default();
+            let fut = Suspend::new(async move {
+                let i18n = use_i18n();
+                let label = match k % EAGER_KEYS.len() {
+                    0 => t_string!(i18n, common.bye, name = "E").await.to_string(),
+                    _ => t_string!(i18n, common.app.version, v = 3).await.to_string(),
+                };
+                gate.wait().await;
+                view! { <p data-e="1" title=label>"e"</p> }
+            });
+            if under_suspense {
+                out.push(fut.into_any());
+            } else {
+                out.push(view! { <Suspense fallback=move || view! { <span class="fallback">"..."</span> }>{fut}</Suspense> }.into_any());
+            }
+        }
+        out
+    };
+    let provider_view = match provider {
+        1 => view! { <I18nContextProvider enable_cookie=false cookie_options=copts ssr_lang_header_getter=lopts>{children()}</I18nContextProvider> }.into_any(),
+        2 => view! { <I18nContextProvider cookie_name="site_locale" cookie_options=copts ssr_lang_header_getter=lopts>{children()}</I18nContextProvider> }.into_any(),
+        3 => view! { <I18nContextProvider set_dir_attr_on_html=false cookie_options=copts ssr_lang_header_getter=lopts>{children()}</I18nContextProvider> }.into_any(),
+        4 => view! { <I18nContextProvider set_lang_attr_on_html=false cookie_options=copts ssr_lang_header_getter=lopts>{children()}</I18nContextProvider> }.into_any(),
+        5 => view! { <I18nContextProvider enable_cookie=true set_dir_attr_on_html=false cookie_options=copts ssr_lang_header_getter=lopts>{children()}</I18nContextProvider> }.into_any(),
+        _ => view! { <I18nContextProvider cookie_options=copts ssr_lang_header_getter=lopts>{children()}</I18nContextProvider> }.into_any(),
+    };
+    if under_suspense {
+        view! { <Suspense fallback=move || view! { <span class="fallback">"page..."</span> }>{provider_view}</Suspense> }.into_any()
+    } else {
+        provider_view
     }
 }
 
-fn shell(page: Vec<Node>, gates: Vec<Gate>, cookie: String, accept: String, st: Arc<Mutex<ResponseState>>) -> impl IntoView {
+fn shell(r: Request, gates: Vec<Gate>, st: Arc<Mutex<ResponseState>>) -> impl IntoView {
     view! {
         <!DOCTYPE html>
         <html>
@@ -319,7 +387,7 @@ fn shell(page: Vec<Node>, gates: Vec<Gate>, cookie: String, accept: String, st: 
                 <meta charset="utf-8" />
                 <MetaTags />
             </head>
-            <body>{page_view(page, gates, cookie, accept, st)}</body>
+            <body>{page_view(r, gates, st)}</body>
         </html>
     }
 }
@@ -542,11 +610,11 @@ fn node_text(html: &str, n: usize) -> Option<String> {
 
 // ------------------------------------------------------------------ model of one request
 
-fn cookie_locale(header: &str) -> Option<usize> {
+fn cookie_locale(header: &str, name: &str) -> Option<usize> {
     let mut found = None;
     for part in header.split(';') {
         if let Some((n, v)) = part.split_once('=') {
-            if n.trim() == "i18n_pref_locale" {
+            if n.trim() == name {
                 found = LOCS.iter().position(|l| *l == v.trim());
             }
         }
@@ -554,9 +622,12 @@ fn cookie_locale(header: &str) -> Option<usize> {
     found
 }
 
-fn resolve(cookie: &str, accept: &str) -> usize {
-    if let Some(l) = cookie_locale(cookie) {
-        return l;
+fn resolve(r: &Request) -> usize {
+    let (cookie, accept) = (r.cookie.as_str(), r.accept.as_str());
+    if r.enable_cookie() {
+        if let Some(l) = cookie_locale(cookie, r.cookie_name()) {
+            return l;
+        }
     }
     let list: Vec<String> = accept.split(',').map(|e| e.split(';').next().unwrap_or("").trim().to_string()).filter(|e| !e.is_empty()).collect();
     loc_index(<Locale as leptos_i18n::Locale>::find_locale(&list))
@@ -573,7 +644,7 @@ struct Expect {
 }
 
 fn expect(r: &Request) -> Expect {
-    let initial = resolve(&r.cookie, &r.accept);
+    let initial = resolve(r);
     // every set runs while the page is being constructed, before anything is rendered
     let main_locale = r.page.iter().rev().find_map(|n| if let Node::Set { l } = n { Some(*l % 5) } else { None }).unwrap_or(initial);
     let mut must = BTreeSet::new();
@@ -603,6 +674,10 @@ fn expect(r: &Request) -> Expect {
                 texts.push((n, expected_text(*key, LOCS[main_locale]), true));
             }
         }
+    }
+    if let Some((k, _)) = r.eager {
+        // read once inside a future, at the future's first poll, which happens while the page is first walked
+        must.insert((LOCS[main_locale].to_string(), EAGER_KEYS[k % EAGER_KEYS.len()].0.to_string()));
     }
     Expect { main_locale, must, may, texts }
 }
@@ -639,13 +714,13 @@ pub fn handle(req: &Value) -> Value {
                 }
                 exec::set_label(&format!("request{i}"));
                 let st = states[i].clone();
-                let (page, gs, cookie, accept, in_order, drop_after) = (r.page.clone(), gates.clone(), r.cookie.clone(), r.accept.clone(), r.in_order, r.drop_after_chunks);
+                let (req, gs, in_order, drop_after) = (r.clone(), gates.clone(), r.in_order, r.drop_after_chunks);
                 // one task per request: root owner creation, app construction and the first poll of the stream happen
                 // inside `from_app` without yielding in between, exactly as in the server integrations
                 any_spawner::Executor::spawn_local(async move {
                     let (meta, meta_output) = ServerMetaContext::new();
                     let st_app = st.clone();
-                    let app_fn = move || shell(page, gs, cookie, accept, st_app);
+                    let app_fn = move || shell(req, gs, st_app);
                     let additional = move || provide_context(meta);
                     let res = if in_order {
                         SimResponse::from_app(app_fn, meta_output, additional, (), |app, chunks| Box::pin(async move { Box::pin(app.to_html_stream_in_order().chain(chunks())) as PinnedStream<String> })).await
@@ -798,22 +873,45 @@ pub fn handle(req: &Value) -> Value {
                 None => violations.push(Violation { property: "C16", invariant: "rendered_text", signature: "a text node is missing from a complete response".into(), detail: format!("request {i} node {n}") }),
             }
         }
-        // <html lang>: the final main locale
-        if let Some(p) = html.find("<html") {
+        // the run-once access: its text is in the page
+        if let Some((k, _)) = r.eager {
+            let want = format!("title=\"{}\"", EAGER_KEYS[k % EAGER_KEYS.len()].2.replace("{L}", LOCS[exp.main_locale]));
+            if html.contains(&want) {
+                *probes.entry("run_once_access_checked".into()).or_default() += 1;
+            } else {
+                violations.push(Violation { property: "C16", invariant: "rendered_text", signature: "a translation read once inside a future shows another locale or key".into(), detail: format!("request {i}: expected {want}") });
+            }
+        }
+        // <html lang dir>: the final main locale, when the provider is asked to set them (its defaults)
+        if let (Some(p), false) = (html.find("<html"), r.under_suspense) {
             let tag_end = html[p..].find('>').map(|e| e + p).unwrap_or(html.len());
             let tag = &html[p..tag_end];
             let want = format!("lang=\"{}\"", LOCS[exp.main_locale]);
-            if tag.contains(&want) {
-                *probes.entry("html_lang_checked".into()).or_default() += 1;
-            } else {
-                // without a render-time set the attribute shows the initial resolution (C15); otherwise the last locale set (C16)
-                let has_set = r.page.iter().any(|n| matches!(n, Node::Set { .. }));
+            let has_set = r.page.iter().any(|n| matches!(n, Node::Set { .. }));
+            if r.sets_lang() {
+                if tag.contains(&want) {
+                    *probes.entry("html_lang_checked".into()).or_default() += 1;
+                } else {
+                    // without a render-time set the attribute shows the initial resolution (C15); otherwise the last locale set (C16)
+                    violations.push(Violation {
+                        property: if has_set { "C16" } else { "C15" },
+                        invariant: "html_lang",
+                        signature: if has_set { "<html lang> is not the last locale set while rendering".into() } else { "<html lang> is not the locale resolved from cookie / Accept-Language / default".into() },
+                        detail: format!("request {i}: Cookie {:?} (provider variant {}), Accept-Language {:?}: {tag:?}, expected {want}", r.cookie, r.provider, r.accept),
+                    });
+                }
+            } else if tag.contains("lang=") {
+                violations.push(Violation { property: "C15", invariant: "html_lang", signature: "<html lang> is set although set_lang_attr_on_html=false".into(), detail: format!("request {i}: {tag:?}") });
+            }
+            if r.sets_dir() != tag.contains("dir=") {
                 violations.push(Violation {
-                    property: if has_set { "C16" } else { "C15" },
-                    invariant: "html_lang",
-                    signature: if has_set { "<html lang> is not the last locale set while rendering".into() } else { "<html lang> is not the locale resolved from cookie / Accept-Language / default".into() },
-                    detail: format!("request {i}: Cookie {:?}, Accept-Language {:?}: {tag:?}, expected {want}", r.cookie, r.accept),
+                    property: "C15",
+                    invariant: "provider_options",
+                    signature: "the provider's set_dir_attr_on_html option is not honoured".into(),
+                    detail: format!("request {i}: provider variant {}, {tag:?}", r.provider),
                 });
+            } else {
+                *probes.entry("html_dir_checked".into()).or_default() += 1;
             }
         }
         responses.push(info);
